@@ -326,11 +326,16 @@ def sweeps(tier, rng):
             yield (("glyf-simple", npts, fam), bad)
         for i in range(n // 2):
             c = GlyphComponent(); c.glyphName = "b"; c.flags = 0
-            k = rng.below(4)
+            k = rng.below(5)
             c.x, c.y = rng.choice([(0, 0), (127, -128), (128, 0), (-129, 5), (32767, -32768), (rng.randint(-500, 500), rng.randint(-500, 500))])
             if k == 1: c.transform = [[rng.randint(-32768, 32767) / 16384, 0], [0, 0]]; c.transform[1][1] = c.transform[0][0]
             elif k == 2: c.transform = [[rng.randint(-32768, 32767) / 16384, 0], [0, rng.randint(-32768, 32767) / 16384]]
             elif k == 3: c.transform = [[rng.randint(-32768, 32767) / 16384 for _ in range(2)] for _ in range(2)]
+            elif k == 4:
+                # a shear: exactly one off-diagonal term (an oblique built from an upright glyph), with or without scaling
+                d0, d1 = rng.choice([(1.0, 1.0), (rng.randint(-32768, 32767) / 16384, rng.randint(-32768, 32767) / 16384), (1.0, 0.5)])
+                off = rng.choice([3185, 4096, -2000, 1]) / 16384
+                c.transform = [[d0, off], [0, d1]] if rng.chance(50) else [[d0, 0], [off, d1]]
             c.flags = rng.choice([0, 0x4, 0x200, 0x800, 0x1000])
             glyfT = SimpleNamespace(getGlyphID=lambda nme: 7, getGlyphName=lambda gid: "b")
             try:
@@ -424,7 +429,8 @@ def sweeps(tier, rng):
             from fontTools.ttLib.tables._k_e_r_n import KernTable_format_0
             order = [".notdef"] + ["g%d" % j for j in range(1, 30)]
             f = _font_stub(order); kt = newTable("kern"); kt.version = 0; st = KernTable_format_0(); st.coverage = 1; st.version = 0; st.apple = False; st.tupleIndex = None
-            st.kernTable = {(rng.choice(order), rng.choice(order)): rng.randint(-32768, 32767) for _ in range(rng.randint(0, 40))}
+            st.kernTable = {(rng.choice(order), rng.choice(order)): rng.choice([rng.randint(-32768, 32767), -32768, 32767, -32767, -1, 0, 1]) for _ in range(rng.randint(0, 40))}
+            if rng.chance(50): st.apple = True; kt.version = 1.0; st.coverage = 0
             kt.kernTables = [st]
             try:
                 data = kt.compile(f); k2 = newTable("kern"); k2.decompile(data, f)
